@@ -402,6 +402,7 @@ type entrySpec struct {
 	RTime  int    // 1..3 -> revocation time
 	Inv    string // none | before | equal | after | malformed | trailing
 	Crit   bool   // an unknown critical entry extension
+	Neg    bool   // with Match false: the entry's serial number is the NEGATION of the certificate's (same magnitude, another number)
 }
 
 func (e entrySpec) String() string {
@@ -455,6 +456,9 @@ func buildCRL(s crlSpec, issuer *Cert, serial *big.Int) []byte {
 		re := x509.RevocationListEntry{SerialNumber: serial, RevocationTime: entryTime(e.RTime), ReasonCode: e.Reason}
 		if !e.Match {
 			re.SerialNumber = new(big.Int).Add(serial, big.NewInt(int64(100+i)))
+			if e.Neg {
+				re.SerialNumber = new(big.Int).Neg(serial)
+			}
 		}
 		gt := func(t time.Time) []byte { v, _ := asn1.MarshalWithParams(t.UTC(), "generalized"); return v }
 		switch e.Inv {
